@@ -542,10 +542,19 @@ impl<const N: usize> ScenN<N> {
         // history: (kind, key index, ts, invocation, response, result)   kind: 0 write 1 delete 2 contains 3 read
         type Ev = ConcEv;
         let hist: Arc<Mutex<Vec<Ev>>> = Arc::new(Mutex::new(std::mem::take(&mut self.conc_prev)));
+        // every client starts its first operation at the same moment
+        let barrier = Arc::new(tokio::sync::Barrier::new(clients.max(1)));
+        // ... on the multi-thread runtime (up to 64 clients) each on a thread of its own, released together, so that the
+        // unlocked pre-checks of their first operations really run in parallel
+        let hard = if !self.cfg.ct && clients <= 64 { Some(Arc::new(std::sync::Barrier::new(clients.max(1)))) } else { None };
+        let spin = Arc::new(AtomicU64::new(0));
         let run = async {
             let mut handles = Vec::new();
             for c in 0..clients {
                 let st = st.clone();
+                let barrier = barrier.clone();
+                let hard = hard.clone();
+                let spin = spin.clone();
                 let pool = pool.clone();
                 let clock = clock.clone();
                 let tsgen = tsgen.clone();
@@ -553,6 +562,21 @@ impl<const N: usize> ScenN<N> {
                 handles.push(tokio::spawn(async move {
                     let mut x: u64 = (seed.wrapping_mul(0x9E37_79B9_7F4A_7C15) ^ (c as u64 + 1).wrapping_mul(0xD1B5_4A32_D192_ED03)) | 1;
                     let mut rnd = move || { x ^= x << 13; x ^= x >> 7; x ^= x << 17; x };
+                    barrier.wait().await;
+                    if let Some(h) = hard {
+                        tokio::task::block_in_place(|| {
+                            h.wait();
+                            if clients <= 12 {
+                                // a spinning rendezvous on top: wake-up latencies of the barrier are longer than the
+                                // window between an unlocked check and the lock that follows it
+                                spin.fetch_add(1, AO::SeqCst);
+                                let t0 = std::time::Instant::now();
+                                while spin.load(AO::SeqCst) < clients as u64 && t0.elapsed() < Duration::from_secs(2) {
+                                    std::hint::spin_loop();
+                                }
+                            }
+                        });
+                    }
                     for _ in 0..nops {
                         let ki = (rnd() % pool.len() as u64) as usize;
                         let key = ArrayKey::<N>::from(pool[ki].clone());
@@ -999,6 +1023,19 @@ impl<const N: usize> ScenN<N> {
             }
             cuts.sort();
             cuts.dedup();
+            // power loss with the file LENGTH persisted and the pages of the un-synced tail not: the tail reads as
+            // zeros ("torn", not "missing"); the first zeroed byte is one that changes
+            if b.dirty > 0 {
+                for (start, hsz, ms, ds) in &layout {
+                    let e = (start + hsz + ms + ds) as u64;
+                    for c in [*start as u64, *start as u64 + 9, (start + hsz) as u64, (start + hsz + ms) as u64,
+                              (start + hsz + ms + ds / 2) as u64, e - 1] {
+                        if c >= synced && c < b.file_size && bytes.get(c as usize).map_or(false, |x| *x != 0) {
+                            cands.push((b.id, c, "zero"));
+                        }
+                    }
+                }
+            }
             for c in cuts {
                 for iv in ["keep", "rm", "cut", "unwritten"] {
                     if iv != "keep" && !orig.join(format!("t.{}.index", b.id)).exists() {
@@ -1026,6 +1063,14 @@ impl<const N: usize> ScenN<N> {
                             }
                         }
                     }
+                    // ... and the same tail record with its header intact and its data pages zeroed (length kept)
+                    for c in [(start + hsz + ms) as u64, (start + hsz + ms + ds / 2) as u64] {
+                        if let Some(ix) = cands.iter().position(|x| x.0 == b.id && x.1 == c && x.2 == "zero") {
+                            if !chosen.contains(&ix) {
+                                chosen.push(ix);
+                            }
+                        }
+                    }
                 }
             }
         }
@@ -1039,7 +1084,10 @@ impl<const N: usize> ScenN<N> {
             let _ = std::fs::remove_file(copy.join("pearl.lock"));
             let bpath = copy.join(format!("t.{}.blob", bid));
             let full = std::fs::read(&bpath).unwrap_or_default();
-            let cutb = full[..(cut as usize).min(full.len())].to_vec();
+            let mut cutb = full[..(cut as usize).min(full.len())].to_vec();
+            if iv == "zero" {
+                cutb.resize(full.len(), 0);
+            }
             std::fs::write(&bpath, &cutb).unwrap();
             let ipath = bpath.with_extension("index");
             match iv {
@@ -1057,7 +1105,11 @@ impl<const N: usize> ScenN<N> {
                 }
                 _ => {}
             }
-            let what = format!("blob {} cut at {} of {} (index {})", bid, cut, full.len(), iv);
+            let what = if iv == "zero" {
+                format!("blob {} zeroed from {} to its end {} (length kept)", bid, cut, full.len())
+            } else {
+                format!("blob {} cut at {} of {} (index {})", bid, cut, full.len(), iv)
+            };
             let recs = Self::parse_records(&full);
             let layout = Self::parse_blob(&full);
             let n_full = layout.iter().filter(|(s0, h, m, d)| (s0 + h + m + d) as u64 <= cut).count();
@@ -1160,6 +1212,144 @@ impl<const N: usize> ScenN<N> {
         self.st = live;
         match bad {
             None => format!("sweep ok n={} e8={}", n, e8),
+            Some(b) => format!("sweep bad {}", b),
+        }
+    }
+
+    /// `metasweep <seed>`: in a scratch directory beside the live one (the live storage is not touched) records and
+    /// deletion markers are written whose metadata maps have several attributes, empty and long values and attribute
+    /// NAMES that are not ASCII; every record must come back from `read_with` and from
+    /// `read_all_with_deletion_marker` + `load` with exactly its metadata and data: at once, after a restart with the
+    /// index files, and after a restart without them (index regenerated by the scan)
+    fn metasweep(&mut self, toks: &[&str]) -> String {
+        let mut x: u64 = toks.get(1).and_then(|x| x.parse().ok()).unwrap_or(1) | 1;
+        let mut rnd = move || {
+            x ^= x << 13;
+            x ^= x >> 7;
+            x ^= x << 17;
+            x
+        };
+        let live = self.st.take();
+        let orig = self.dir.clone();
+        let scratch = orig.with_file_name(format!("{}-meta", orig.file_name().unwrap().to_string_lossy()));
+        let _ = std::fs::remove_dir_all(&scratch);
+        self.dir = scratch.clone();
+        let names = ["m", "version", "", "k0", "\u{432}\u{435}\u{440}\u{441}\u{438}\u{44f}", "\u{540d}\u{524d}", "\u{e9}t\u{e9}", "a\u{1f600}"];
+        let mut recs: Vec<(Vec<u8>, u64, Meta, Vec<u8>, bool)> = Vec::new();
+        for i in 0..8usize {
+            let mut m = Meta::new();
+            let n_attr = 1 + (rnd() % 3) as usize;
+            for j in 0..n_attr {
+                // record i always carries name i; the other attributes are drawn
+                let name = if j == 0 { names[i % names.len()] } else { names[(rnd() % names.len() as u64) as usize] };
+                let vl = [0usize, 1, 7, 40][(rnd() % 4) as usize];
+                let v: Vec<u8> = (0..vl).map(|_| rnd() as u8).collect();
+                m.insert(name.to_string(), v);
+            }
+            let key = vec![0xA0u8 + i as u8; N];
+            let dl = [0usize, 1, 9, 100][(rnd() % 4) as usize];
+            let del = i == 5;
+            let data = if del { Vec::new() } else { gen_data(dl, 17 + i as u64) };
+            recs.push((key, 1 + i as u64, m, data, del));
+        }
+        let mut bad: Option<String> = None;
+        let r = self.open(false);
+        if r != "ok" {
+            bad = Some(format!("open of an empty directory: {}", r));
+        }
+        let mut n = 0usize;
+        if bad.is_none() {
+            let st = self.st.as_ref().unwrap();
+            for (key, ts, m, data, del) in &recs {
+                let k = ArrayKey::<N>::from(key.clone());
+                let r = self.rt.block_on(async {
+                    if *del {
+                        st.delete_with(&k, BlobRecordTimestamp::new(*ts), m.clone(), false).await.map(|_| ())
+                    } else {
+                        st.write_with(&k, Bytes::from(data.clone()), BlobRecordTimestamp::new(*ts), m.clone()).await
+                    }
+                });
+                if let Err(e) = r {
+                    bad = Some(format!("write of record {} (meta {:?}): {}", ts, m, err_kind(&e)));
+                    break;
+                }
+            }
+        }
+        for phase in ["written", "reopened with index files", "reopened without index files"] {
+            if bad.is_some() {
+                break;
+            }
+            if phase != "written" {
+                if let Some(st) = self.st.take() {
+                    let _ = self.rt.block_on(async { tokio::time::timeout(Duration::from_secs(60), st.close()).await });
+                }
+                if phase == "reopened without index files" {
+                    if let Ok(rd) = std::fs::read_dir(&scratch) {
+                        for e in rd.flatten() {
+                            if e.path().extension().map_or(false, |x| x == "index") {
+                                let _ = std::fs::remove_file(e.path());
+                            }
+                        }
+                    }
+                }
+                let r = self.open(false);
+                if r != "ok" {
+                    bad = Some(format!("{}: init {}", phase, r));
+                    break;
+                }
+            }
+            let st = self.st.as_ref().unwrap();
+            for (key, ts, m, data, del) in &recs {
+                n += 1;
+                let k = ArrayKey::<N>::from(key.clone());
+                let r = self.rt.block_on(async { st.read_with(&k, m).await });
+                let okr = match (&r, *del) {
+                    (Ok(ReadResult::Found(b)), false) => b.as_ref() == &data[..],
+                    (Ok(ReadResult::Deleted(t)), true) => Into::<u64>::into(*t) == *ts,
+                    _ => false,
+                };
+                if !okr {
+                    let got = match r {
+                        Ok(ReadResult::Found(b)) => format!("found {} bytes", b.len()),
+                        Ok(ReadResult::Deleted(t)) => format!("deleted {}", Into::<u64>::into(t)),
+                        Ok(ReadResult::NotFound) => "notfound".to_string(),
+                        Err(e) => format!("err {}", err_kind(&e)),
+                    };
+                    bad = Some(format!("{}: read_with of record {} with its own metadata {:?} -> {}", phase, ts, m, got));
+                    break;
+                }
+                let r = self.rt.block_on(async {
+                    let es = st.read_all_with_deletion_marker(&k).await?;
+                    let mut out = Vec::new();
+                    for e in es {
+                        let d = e.is_deleted();
+                        let rec = e.load().await?;
+                        out.push((d, rec.meta().clone(), rec.into_data().to_vec()));
+                    }
+                    anyhow::Result::<_>::Ok(out)
+                });
+                match r {
+                    Ok(v) if v.len() == 1 && v[0].0 == *del && v[0].1 == *m && v[0].2 == *data => {}
+                    Ok(v) => {
+                        bad = Some(format!("{}: record {} written with metadata {:?} and {} data bytes comes back as {:?}", phase, ts, m, data.len(),
+                            v.iter().map(|x| (x.0, x.1.clone(), x.2.len())).collect::<Vec<_>>()));
+                        break;
+                    }
+                    Err(e) => {
+                        bad = Some(format!("{}: loading record {} (metadata {:?}): {}", phase, ts, m, err_kind(&e)));
+                        break;
+                    }
+                }
+            }
+        }
+        if let Some(st) = self.st.take() {
+            let _ = self.rt.block_on(async { tokio::time::timeout(Duration::from_secs(60), st.close()).await });
+        }
+        let _ = std::fs::remove_dir_all(&scratch);
+        self.dir = orig;
+        self.st = live;
+        match bad {
+            None => format!("sweep ok n={}", n),
             Some(b) => format!("sweep bad {}", b),
         }
     }
@@ -1318,12 +1508,13 @@ impl<const N: usize> ScenN<N> {
                 }
             }
             // 3. damage: truncations and flipped bytes per position class
-            let mut cases: Vec<(String, Vec<u8>, usize, bool)> = Vec::new(); // (what, image, index of first damaged record, isolated)
+            // (what, image, index of first damaged record, isolated, index of a second isolated damaged record)
+            let mut cases: Vec<(String, Vec<u8>, usize, bool, Option<usize>)> = Vec::new();
             for (ri, (start, hsz, ms, ds)) in layout.iter().enumerate() {
                 let end = start + hsz + ms + ds;
                 for t in [start + 1, start + hsz / 2, start + hsz, start + hsz + ms + ds / 2, end - 1] {
                     if t > *start && t < end && t < bytes.len() {
-                        cases.push((format!("trunc@{} (record {})", t, ri), bytes[..t].to_vec(), ri, false));
+                        cases.push((format!("trunc@{} (record {})", t, ri), bytes[..t].to_vec(), ri, false, None));
                     }
                 }
                 let klen = hsz - 57;
@@ -1332,25 +1523,50 @@ impl<const N: usize> ScenN<N> {
                     if off < *hsz {
                         let mut b = bytes.clone();
                         b[start + off] ^= 0x21;
-                        cases.push((format!("hflip@{}+{} (record {})", start, off, ri), b, ri, true));
+                        cases.push((format!("hflip@{}+{} (record {})", start, off, ri), b, ri, true, None));
                     }
                 }
                 if *ds > 0 {
                     let mut b = bytes.clone();
                     let p = start + hsz + ms + (rnd() as usize % ds);
                     b[p] ^= 0x40;
-                    cases.push((format!("dflip@{} (record {})", p, ri), b, ri, true));
+                    cases.push((format!("dflip@{} (record {})", p, ri), b, ri, true, None));
                 }
+            }
+            // two damaged records with at least one intact record between them, every pairing of the two damage
+            // classes (header outside the length fields / data)
+            for _ in 0..6 {
+                if layout.len() < 4 {
+                    break;
+                }
+                let i = rnd() as usize % (layout.len() - 2);
+                let j = i + 2 + rnd() as usize % (layout.len() - i - 2);
+                let mut b = bytes.clone();
+                let mut whats = Vec::new();
+                for (r, pick) in [(i, rnd() % 2), (j, rnd() % 2)] {
+                    let (start, hsz, ms, ds) = layout[r];
+                    let klen = hsz - 57;
+                    if pick == 0 && ds > 0 {
+                        let p = start + hsz + ms + (rnd() as usize % ds);
+                        b[p] ^= 0x40;
+                        whats.push(format!("dflip@{} (record {})", p, r));
+                    } else {
+                        let off = [16usize, 41 + klen, 49 + klen, 53 + klen][(rnd() % 4) as usize];
+                        b[start + off] ^= 0x21;
+                        whats.push(format!("hflip@{}+{} (record {})", start, off, r));
+                    }
+                }
+                cases.push((whats.join(" and "), b, i, true, Some(j)));
             }
             {
                 let mut b = bytes.clone();
                 b[3] ^= 0x10;
-                cases.push(("blob magic".into(), b, 0, false));
+                cases.push(("blob magic".into(), b, 0, false, None));
             }
             let total = cases.len();
             let chosen: Vec<usize> = if total <= budget { (0..total).collect() } else { (0..budget).map(|i| (i * total) / budget).collect() };
             for ci in chosen {
-                let (what, image, first_bad, isolated) = &cases[ci];
+                let (what, image, first_bad, isolated, second_bad) = &cases[ci];
                 let dp = work.join("damaged.blob");
                 std::fs::write(&dp, image).unwrap();
                 n += 1;
@@ -1391,7 +1607,13 @@ impl<const N: usize> ScenN<N> {
                     let got = Self::parse_records(&out);
                     let mut want: Vec<(Vec<u8>, u64, u8, usize)> = recs[..*first_bad].to_vec();
                     if skip && *isolated && first_bad + 1 < recs.len() {
-                        want.extend_from_slice(&recs[first_bad + 1..]);
+                        match second_bad {
+                            None => want.extend_from_slice(&recs[first_bad + 1..]),
+                            Some(j) => {
+                                want.extend_from_slice(&recs[first_bad + 1..*j]);
+                                want.extend_from_slice(&recs[j + 1..]);
+                            }
+                        }
                     }
                     let prefix_ok = got.len() >= *first_bad && got[..*first_bad] == recs[..*first_bad];
                     if !prefix_ok || (skip && *isolated && got != want) {
@@ -1784,6 +2006,9 @@ impl<const N: usize> ScenN<N> {
         }
         if toks[0] == "crashsweep" {
             return self.crashsweep(&toks);
+        }
+        if toks[0] == "metasweep" {
+            return self.metasweep(&toks);
         }
         if toks[0] == "conc" {
             return self.conc(&toks);
